@@ -328,7 +328,10 @@ def two_theta(
     b2 = scattered_beam / L2(scattered_beam=scattered_beam)
 
     y = sc.norm(b1 - b2)
-    b2 += b1
+    if set(b1.dims) <= set(b2.dims):
+        b2 += b1
+    else:  # b2 cannot hold the broadcast sum
+        b2 = b1 + b2
     x = sc.norm(b2)
     res = sc.atan2(y=y, x=x, out=x)
     res *= 2
